@@ -16,14 +16,19 @@ EXTENDS Integers, Sequences, FiniteSets, TLC, Json
 CONSTANTS MaxFiles, RowChoices, Shapes, Ways, PathKinds
 
 VARIABLES coll, way, pathkind, verify, badschema, pc,
+          badkind,    \* HOW the deviating file's schema differs: "name" (a column is called differently), "ptype" (another
+                      \* physical type), "width" (fixed-length bytes of another length), "logical" (same physical type,
+                      \* another logical type: int64 vs timestamp), "optional" (REQUIRED vs OPTIONAL)
           rootgiven   \* the caller names the dataset root (list / merge only): directory levels above the files are then
                       \* partition levels even when every file shares them; otherwise the root is inferred from the paths
-vars == <<coll, way, pathkind, verify, badschema, pc, rootgiven>>
+vars == <<coll, way, pathkind, verify, badschema, pc, rootgiven, badkind>>
+BadKinds == {"name", "ptype", "width", "logical", "optional"}
 
 Colls == UNION {[1..k -> [rows : RowChoices, key : 1..2]] : k \in 1..MaxFiles}
 Init == /\ coll \in Colls /\ way \in Ways /\ pathkind \in PathKinds /\ verify \in BOOLEAN
         /\ badschema \in 0..MaxFiles                 \* 0: all files agree; i: file i has different columns
         /\ badschema <= MaxFiles /\ pc = "open"
+        /\ badkind \in BadKinds /\ (badschema = 0 => badkind = "name")
         /\ rootgiven \in BOOLEAN /\ (rootgiven => way \in {"list", "merge"} /\ pathkind = "abs")
            \* (a relative root next to relative paths is refused by the library with an error: paths are made
            \*  absolute before they are compared with the root as given)
@@ -31,12 +36,12 @@ RECURSIVE Sum(_)
 Sum(s) == IF s = <<>> THEN 0 ELSE Head(s) + Sum(Tail(s))
 ExpectRows == Sum([i \in DOMAIN coll |-> coll[i].rows])
 MustReject == verify /\ badschema \in DOMAIN coll /\ Len(coll) > 1
-Open == pc = "open" /\ pc' = "done" /\ UNCHANGED <<coll, way, pathkind, verify, badschema, rootgiven>>
+Open == pc = "open" /\ pc' = "done" /\ UNCHANGED <<coll, way, pathkind, verify, badschema, rootgiven, badkind>>
 Next == Open
 Spec == Init /\ [][Next]_vars
 Sensible == badschema <= Len(coll) /\ (badschema # 0 => Len(coll) > 1)
 Export == pc = "done" /\ Sensible => PrintT(ToJson([files |-> coll, way |-> way, pathkind |-> pathkind, verify |-> verify,
-                                                     badschema |-> badschema, rows |-> ExpectRows, reject |-> MustReject,
+                                                     badschema |-> badschema, badkind |-> badkind, rows |-> ExpectRows, reject |-> MustReject,
                                                      rootgiven |-> rootgiven]))
 RowsAll == {0, 1, 2}
 (* hive2 / drill2: two directory levels, the second key being 3 - key (two files with different keys differ at BOTH levels) *)
